@@ -20,19 +20,6 @@ VARIABLES msg, wire, ref, frags, rs, pc, H, R, out, rets, ops, nsteps, bad
 vars == <<msg, wire, ref, frags, rs, pc, H, R, out, rets, ops, nsteps, bad>>
 INF == 1000000
 
-HeadKinds == {"resp", "resph", "req"}
-Wire(m) == IF m.kind = "wchunk" THEN ChunkedWriteAll(m.data, m.sizes)
-           ELSE IF m.kind = "wlen" THEN BodyWriteAll(m.data, m.sizes, m.dn, 0).wire
-           ELSE m.bytes
-ReaderKind(m) == IF m.kind = "wchunk" THEN "cbody" ELSE IF m.kind = "wlen" THEN "lbody" ELSE m.kind
-\* what the property demands for this message: [valid, payload, ...]
-Expect(m, w) ==
-  IF m.kind \in HeadKinds THEN Reference(m.kind, w)
-  ELSE IF m.kind = "wchunk" THEN [valid |-> TRUE, payload |-> m.data]
-  ELSE IF m.kind = "wlen" THEN [valid |-> TRUE, payload |-> SubSeq(m.data, 1, Min(Len(m.data), m.dn))]   \* short when less than declared was written
-  ELSE LET p == Payload(w, IF m.kind = "cbody" THEN [f |-> "chunked"] ELSE IF m.kind = "lbody" THEN [f |-> "length", n |-> m.dn] ELSE [f |-> "close"])
-       IN [valid |-> p.ok, payload |-> p.data]
-
 CutSets(L) == {<<>>}
    \cup (IF MaxCuts >= 1 THEN {<<a>> : a \in 1..(L - 1)} ELSE {})
    \cup (IF MaxCuts >= 2 THEN {c \in (1..(L - 1)) \X (1..(L - 1)) : c[1] < c[2]} ELSE {})
@@ -87,8 +74,8 @@ Read ==
 Next == RecvHdr \/ Read
 Spec == Init /\ [][Next]_vars
 
+
 (* ---------------------------------------------------------------- properties ---------------------------------------------------------------- *)
-Flip(s) == [i \in 1..Len(s) |-> IF s[i] \in 65..90 THEN s[i] + 32 ELSE IF s[i] \in 97..122 THEN s[i] - 32 ELSE s[i]]
 Done == pc = "done"
 IsHead == msg.kind \in HeadKinds
 \* the parsed start line, header multimap and look-ups equal the reference, whatever the fragmentation
@@ -104,7 +91,6 @@ BodyExactThenEOF == (Done /\ ref.valid) => (RetsOK(rets, Len(ref.payload)) /\ Su
 BodyPrefix == ref.valid => (Len(out) <= Len(ref.payload) /\ out = SubSeq(ref.payload, 1, Len(out)))
 WriterReaderRoundTrip == (Done /\ msg.kind \in {"wchunk", "wlen"}) => out = ref.payload
 \* every input, malformed or not: ends with error / end-of-stream within the step bound, touches nothing outside the received bytes
-InRange(p, n) == p[1] >= 0 /\ p[2] >= 0 /\ p[1] + p[2] <= n
 MalformedTerminates ==
   /\ bad = {} /\ ops <= StepBound(Len(wire)) /\ nsteps <= 2 * Len(wire) + 6
   /\ Done => (IF IsHead /\ H.rc # 0 THEN H.rc \in {-1, 1} ELSE RetsEnd(rets))
